@@ -30,8 +30,8 @@ void harness(void)
 
 	VERIF_ASSERT(g_nwrite == 1 && g_ntrunc == 0 && g_w_off == size0,
 		     "C14.write_block.one_write_at_end");
-	VERIF_ASSERT(ret != 0 || g_fsize == size0 + g_w_len,
-		     "C14.write_block.grows_by_len");
+	VERIF_ASSERT(g_w_len == ((((size_t)blk.data[1] << 8) | blk.data[0]) & 0x7FFF) + 2,
+		     "C14.write_block.len_from_header");
 	VERIF_COVER(ret == 0 && g_w_len == SQFS_META_BLOCK_SIZE + 2);
 	VERIF_COVER(ret != 0);
 }
